@@ -164,20 +164,31 @@ def check(col: Collector, tier: str):
     pmb = parent_map(bc.node)
     raises = [r for r in walk_no_nested(bc.node) if isinstance(r, ast.Raise)]
     # tests are compared in positive form with their outcome (guards() folds `not`, `!=`, `is not`, guard clauses and if/else alike)
-    ARITY = ("len(call_node.args) == len(spec.arguments)", False)
-    FUNC_AS_METHOD = ("isinstance(call_node.func, ast.Attribute) and spec.method_object is None", True)
-    METHOD_AS_FUNC = ("isinstance(call_node.func, ast.Name) and spec.method_object is not None", True)
+    # each refusal as a set of atoms (positive test, outcome) that the raise stands under - `A and B`, nested ifs, an if/elif grouped by the
+    # second test and guard clauses all give the same closed guard set
+    ARITY = {("len(call_node.args) == len(spec.arguments)", False)}
+    FUNC_AS_METHOD = {("isinstance(call_node.func, ast.Attribute)", True), ("spec.method_object is None", True)}
+    METHOD_AS_FUNC = {("isinstance(call_node.func, ast.Name)", True), ("spec.method_object is None", False)}
     gsets = [{(src(t), tr_) for t, tr_ in guards(bc.node, r, pmb)} for r in raises]
     gtxt = [sorted(g) for g in gsets]
-    ctor = [c for c in walk_no_nested(bc.node) if isinstance(c, ast.Call) and call_name(c) == "CPPCodeValue"]
-    passed = {(ARITY[0], True), (FUNC_AS_METHOD[0], False), (METHOD_AS_FUNC[0], False)}
-    before = bool(ctor) and passed <= {(src(t), tr_) for t, tr_ in guards(bc.node, ctor[0], pmb)}
-    col.add("C11.R3", bc.short, "arity-mismatch-raises", any(ARITY in g for g in gsets) and before, f"guards {gtxt}", bc.loc)
-    col.add("C11.R3", bc.short, "method-style-call-of-a-function-raises", any(FUNC_AS_METHOD in g for g in gsets) and before, f"guards {gtxt}", bc.loc)
-    col.add("C11.R3", bc.short, "function-style-call-of-a-method-raises", any(METHOD_AS_FUNC in g for g in gsets) and before, f"guards {gtxt}", bc.loc)
     inst = [n_ for n_ in walk_no_nested(bc.node) if isinstance(n_, ast.Assign) and src(n_.targets[0]) == "call_node.func"]
-    col.add("C11.R3", bc.short, "node-rewritten-only-after-the-checks",
-            len(inst) == 1 and passed <= {(src(t), tr_) for t, tr_ in guards(bc.node, inst[0], pmb)} and len(raises) == 3,
+    # the node is rewritten only after the checks: on every path that reaches the rewriting statement, tests on the argument count, on the
+    # specification's method object and on the call style have been evaluated before it (a failed one ends the path in its raise)
+    from sa.core.paths import enumerate_paths as _ep
+    before = len(inst) == 1
+    n_reach = 0
+    for p_ in _ep(bc.node):
+        idx = next((i for i, e in enumerate(p_.events) if e.kind == "assign" and e.node is inst[0]), None) if inst else None
+        if idx is None:
+            continue
+        n_reach += 1
+        tests = " ; ".join(src(e.node) for e in p_.events[:idx] if e.kind in ("cond", "assert") and isinstance(e.node, ast.expr))
+        before = before and "len(call_node.args)" in tests and "spec.method_object" in tests and "isinstance(call_node.func" in tests
+    before = before and n_reach > 0
+    col.add("C11.R3", bc.short, "arity-mismatch-raises", any(ARITY <= g for g in gsets) and before, f"guards {gtxt}", bc.loc)
+    col.add("C11.R3", bc.short, "method-style-call-of-a-function-raises", any(FUNC_AS_METHOD <= g for g in gsets) and before, f"guards {gtxt}", bc.loc)
+    col.add("C11.R3", bc.short, "function-style-call-of-a-method-raises", any(METHOD_AS_FUNC <= g for g in gsets) and before, f"guards {gtxt}", bc.loc)
+    col.add("C11.R3", bc.short, "node-rewritten-only-after-the-checks", before and len(raises) == 3,
             "the call node may be rewritten only where all three checks passed", bc.loc)
     for f in repo.functions_named("isNonnullAst"):
         pmf = parent_map(f.node)
